@@ -163,7 +163,7 @@ def main(tier):
                         rn = lambda s: s
                         dcases.append('(mkDFmt %s %s %s %s %s)' % (cnat(cid), c04.c_diff(dt, rn), cstr(do['txt'].get('out', '')), cstr(do['md'].get('out', '')), cstr(do['csv'].get('out', ''))))
             # exposure sections: every format must hold exactly the exposure entries of the API result
-            xw = [(k + i, c06.ip_only_world(run.rng) if i % 4 == 3 else c06.gen_case(run.rng, motif=('nsexpr' if i % 8 == 1 else None))) for i in range(max(4, len(metas) // 2))]
+            xw = [(k + i, c06.ip_only_world(run.rng) if i % 4 == 3 else c06.gen_case(run.rng, motif=('nsexpr' if i % 8 == 1 else 'mixed' if i % 8 == 5 else None))) for i in range(max(4, len(metas) // 2))]
             xcmds = []
             for cid, W in xw:
                 dx = h.dir_for('x%d' % cid)
